@@ -172,6 +172,9 @@ func PESHeader(packet *Packet) ([]byte, error) {
 // Header Returns a slice containing the Packer Header.
 func Header(packet *Packet) []byte {
 	start := payloadStart(packet)
+	if start > len(packet) {
+		start = len(packet) // adaptation_field_length runs past the packet
+	}
 	return packet[:start]
 }
 
